@@ -115,6 +115,7 @@ func ParallelEach(n int, c *report.Collector, deadline time.Time, fn func(i int,
 	nw := workers()
 	cur := make([]atomic.Value, nw)
 	prog := make([]int64, nw)
+	doing := make([]atomic.Value, nw)
 	done := make(chan struct{})
 	// watchdog: a call that does not return is a termination failure; report where.
 	go func() {
@@ -132,9 +133,15 @@ func ParallelEach(n int, c *report.Collector, deadline time.Time, fn func(i int,
 					if p == last[w] && cur[w].Load() != nil && cur[w].Load().(string) != "" {
 						stuck[w]++
 						if stuck[w] == 12 {
-							fmt.Fprintf(os.Stderr, "WATCHDOG: worker %d has made no progress for 120s on %s\n", w, cur[w].Load())
+							what := cur[w].Load().(string)
+							if d, ok := doing[w].Load().(*report.Local); ok && d != nil {
+								if s, ok := d.Doing.Load().(string); ok && s != "" {
+									what += ": " + s
+								}
+							}
+							fmt.Fprintf(os.Stderr, "WATCHDOG: worker %d has made no progress for 120s on %s\n", w, what)
 							if HangHook != nil {
-								HangHook(cur[w].Load().(string))
+								HangHook(what)
 							}
 						}
 					} else {
@@ -150,6 +157,8 @@ func ParallelEach(n int, c *report.Collector, deadline time.Time, fn func(i int,
 		go func(w int) {
 			defer wg.Done()
 			l := report.NewLocal()
+			l.Prog = &prog[w]
+			doing[w].Store(l)
 			defer c.Merge(l)
 			for {
 				i := int(atomic.AddInt64(&next, 1))
@@ -200,6 +209,7 @@ func SweepGroups(groups []func() []Case, c *report.Collector, deadline time.Time
 
 // SweepCase runs all queries of one case.
 func SweepCase(cs *Case, c *report.Collector, l *report.Local, o Opts) {
+	l.Doing.Store(cs.Entry.ID + " " + cs.Family + " " + fmt.Sprintf("%.120q", cs.Text))
 	w := world.Build(cs.Spec())
 	src := []byte(cs.Text)
 	cx := &Ctx{W: w, Case: cs, Src: src, L: l, C: c, Store: map[string]any{}}
